@@ -51,26 +51,26 @@ def axioms(ctx, which):
     k, e = z3.Int("k!x"), z3.Int("e!x")
     I = z3.Const("I!x", IDX)
     if which == "lev-basic":
-        ctx.assume(z3.ForAll([a, b], z3.And(lev_f(a, b) >= 0, lev_f(a, b) == lev_f(b, a),
+        ctx.assume_global(z3.ForAll([a, b], z3.And(lev_f(a, b) >= 0, lev_f(a, b) == lev_f(b, a),
                                             (lev_f(a, b) == 0) == (a == b)), patterns=[lev_f(a, b)]),
                    "lemma:L-lev0 / L-sym (Lean) lev >= 0, lev a b = lev b a, lev a b = 0 <-> a = b")
     elif which == "symdel":
         c0 = common_f(a, b, k)
-        ctx.assume(z3.ForAll([a, b, k], z3.Implies(z3.And(lev_f(a, b) <= k, k >= 0),
+        ctx.assume_global(z3.ForAll([a, b, k], z3.Implies(z3.And(lev_f(a, b) <= k, k >= 0),
                                                    z3.And(in_del(c0, a, k), in_del(c0, b, k))),
                              patterns=[common_f(a, b, k)]),
                    "lemma:L-symdel (Lean) lev a b <= k -> a common subsequence within k deletions of both")
     elif which == "subseq-refl":
-        ctx.assume(z3.ForAll([a], subseq_f(a, a), patterns=[subseq_f(a, a)]), "lemma:subseq reflexive (Lean: List.Sublist.refl)")
+        ctx.assume_global(z3.ForAll([a], subseq_f(a, a), patterns=[subseq_f(a, a)]), "lemma:subseq reflexive (Lean: List.Sublist.refl)")
     elif which == "comb":
         dv = delvar_fun()
-        ctx.assume(z3.ForAll([s, I, e], z3.Implies(adm(s, I, e),
+        ctx.assume_global(z3.ForAll([s, I, e], z3.Implies(adm(s, I, e),
                                                    z3.And(subseq_f(dv(s, I, e, 0, 0), s),
                                                           z3.Length(dv(s, I, e, 0, 0)) + e == z3.Length(s))),
                              patterns=[dv(s, I, e, 0, 0)]),
                    "lemma:L-comb -> (Lean) deleting admissible positions yields a subsequence shorter by their number")
         ce, cI = delcnt_f(s, v), delidx_f(s, v)
-        ctx.assume(z3.ForAll([s, v], z3.Implies(z3.And(subseq_f(v, s), z3.Length(v) <= z3.Length(s)),
+        ctx.assume_global(z3.ForAll([s, v], z3.Implies(z3.And(subseq_f(v, s), z3.Length(v) <= z3.Length(s)),
                                                 z3.And(ce == z3.Length(s) - z3.Length(v), adm(s, cI, ce),
                                                        dv(s, cI, ce, 0, 0) == v)),
                              patterns=[delcnt_f(s, v)]),
@@ -218,3 +218,78 @@ def rf_lev(interp, args, kwargs, node):
     axioms(interp.ctx, "lev-basic")
     interp.ctx.assumed.add("extern:rapidfuzz Levenshtein.distance(a, b) is the unit-cost edit distance lev(a, b)")
     return VInt(lev_f(a.term, b.term))
+
+
+hcommon_f = z3.Function("common_del_h", STR, STR, INT, STR)
+
+
+def axioms_h(ctx):
+    if ("ax", "hamdel") in ctx.axioms_added:
+        return
+    ctx.axioms_added.add(("ax", "hamdel"))
+    a, b = z3.Const("a!h", STR), z3.Const("b!h", STR)
+    k = z3.Int("k!h")
+    ctx.assume_global(z3.ForAll([a, b], z3.And(ham_f(a, b) >= 0, ham_f(a, b) == ham_f(b, a),
+                                        z3.Implies(z3.Length(a) == z3.Length(b), (ham_f(a, b) == 0) == (a == b))),
+                         patterns=[ham_f(a, b)]),
+               "lemma:ham basic (Lean) ham >= 0, symmetric, ham a b = 0 <-> a = b for equal lengths")
+    c0 = hcommon_f(a, b, k)
+    ctx.assume_global(z3.ForAll([a, b, k], z3.Implies(z3.And(z3.Length(a) == z3.Length(b), ham_f(a, b) <= k, k >= 0),
+                                               z3.And(in_del(c0, a, k), in_del(c0, b, k))),
+                         patterns=[hcommon_f(a, b, k)]),
+               "lemma:L-hamdel (Lean) equal length and ham a b <= k -> a common subsequence within k deletions of both")
+
+
+@S.spec("ham")
+def _ham(interp, args, kwargs, node):
+    axioms_h(interp.ctx)
+    return VInt(ham_f(args[0].term, args[1].term))
+
+
+@S.spec("common_del_h")
+def _common_del_h(interp, args, kwargs, node):
+    axioms_h(interp.ctx)
+    return VStr(hcommon_f(args[0].term, args[1].term, to_int(args[2])))
+
+
+@extern("rapidfuzz.distance.Hamming.distance")
+def rf_ham(interp, args, kwargs, node):
+    a, b = args[0], args[1]
+    axioms_h(interp.ctx)
+    short = (interp.current_qualname or "").replace("pyrepseq.", "")
+    # rapidfuzz pads the shorter string (counts the length difference); the contract is only the
+    # equal-length case, so equal length is a call pre-condition
+    interp.ctx.oblige(f"{short}/call-pre[Hamming.distance.equal-length]@L{getattr(node, 'lineno', '?')}",
+                      z3.Length(a.term) == z3.Length(b.term), kind="call-pre", line=getattr(node, "lineno", None))
+    interp.ctx.assumed.add("extern:rapidfuzz Hamming.distance(a, b) = number of mismatching positions for equal-length strings")
+    return VInt(ham_f(a.term, b.term))
+
+
+@S.spec("vd_pos")
+def _vd_pos(interp, args, kwargs, node):
+    """Skolem witness: a position of p in the index list of variant v (named so that callers can give hints)"""
+    db, v, p = args
+    f = db.attrs.get("__vd_pos")
+    if f is None:
+        f = interp.ctx.fresh_fun("vd_pos", STR, INT, INT)
+        db.attrs["__vd_pos"] = f
+    return VInt(f(v.term, to_int(p)))
+
+
+@S.spec("neighbor_triplets")
+def _neighbor_triplets(interp, args, kwargs, node):
+    """the specified result of a two-collection search as a comprehension:
+    {(q, r, value(Q[q], R[r])) : 0 <= q < |Q|, 0 <= r < |R|, neighbour(Q[q], R[r])}, each once"""
+    Q, R, pred, val = args[:4]
+    distinct = len(args) > 4 and concrete_bool(interp.as_bool_term(args[4])) is True
+    ctx = interp.ctx
+    q, r = ctx.fresh("q", INT), ctx.fresh("r", INT)
+    nq, nr = interp.seq_len(Q), interp.seq_len(R)
+    a, b = interp.seq_at(Q, q), interp.seq_at(R, r)
+    cond = z3.And(0 <= q, q < nq, 0 <= r, r < nr, interp.as_bool_term(interp.call(pred, [a, b], {}, node)))
+    if distinct:
+        cond = z3.And(cond, q != r)
+    elem = VTuple([VInt(q), VInt(r), interp.call(val, [a, b], {}, node)])
+    out = VList(CompBag([Site("spec", [q, r], cond, elem)]), "list")
+    out.setlike = True
+    return out
